@@ -2,7 +2,7 @@
    (cases are written by checks/c03.py, c10.py, c14.py from the harness output). *)
 From Coq Require Import List Bool NArith.
 Import ListNotations.
-From BWPlanner Require Import Terms Rows Clause Store Fetch Plan PatternSpec.
+From BWPlanner Require Import Terms Rows Clause Store Fetch Plan PatternSpec Domain.
 Open Scope N_scope.
 
 Record qcase := mkCase {
@@ -118,10 +118,13 @@ Definition fixmask (q : qcase) : N :=
   fold_left (fun acc i => if model_is_spec (with_flag (q_cfg q) i) q then acc + N.shiftl 1 i else acc)
             [0; 1; 2; 3; 4; 5; 6; 7] 0.
 
-(* per case: (model agrees?, spec code, number of spec rows, mask of repairs that would close the gap to the spec) *)
-Definition verdict (qo : qcase * obs) : N * N * N * N :=
+(* is the case inside the domain of C03_select_is_solutions_partial? *)
+Definition in_D3 (q : qcase) : N := if D3 (q_cfg q) (q_graphs q) (q_clauses q) (q_outs q) then 1 else 0.
+
+(* per case: (model agrees?, spec code, number of spec rows, mask of repairs that would close the gap to the spec, in D3?) *)
+Definition verdict (qo : qcase * obs) : N * N * N * N * N :=
   let a := if agrees_model (fst qo) (snd qo) then 1 else 0 in
   let b := spec_vs_obs (fst qo) (snd qo) in
-  (a, b, N.of_nat (length (run_spec (fst qo))), if N.eqb b 2 then 0 else fixmask (fst qo)).
+  (a, b, N.of_nat (length (run_spec (fst qo))), (if N.eqb b 2 then 0 else fixmask (fst qo)), in_D3 (fst qo)).
 
-Definition verdicts (l : list (qcase * obs)) : list (N * N * N * N) := map verdict l.
+Definition verdicts (l : list (qcase * obs)) : list (N * N * N * N * N) := map verdict l.
